@@ -129,7 +129,7 @@ def driver_source(idx, leaves, argts):
 
 def header_part(chk, prop, tier, model_exe, stats, budget="run"):
     r = common.rng(prop + "-emb-" + tier + budget)
-    n_mod = 5 if tier == "quick" else 24
+    n_mod = 3 if tier == "quick" else 24
     n_per = 24 if tier == "quick" else 48
     mods = []
     hdir = os.path.join(common.scratch(), "embhdr")
